@@ -52,12 +52,14 @@ type bond struct {
 
 type proc struct {
 	n, m int
+	sic  bool // the processor also has sicv3 (wait for an input change, counts the wait) in its opcode set
 	src  []string
 }
 
 type netCase struct {
 	procs   []proc
 	bonds   []bond
+	sicBond map[int]bool // bonds with a consumer that reads them with sicv3: not a data transfer, not compared
 	delays  string
 	envSeed uint64
 }
@@ -117,6 +119,9 @@ func opsOf(p proc) []string {
 	}
 	if p.n > 0 {
 		ops = append(ops, "i2rw")
+	}
+	if p.sic {
+		ops = append(ops, "sicv3")
 	}
 	sort.Strings(ops)
 	return ops
@@ -229,7 +234,7 @@ func ioOn(line string, out bool, port int) bool {
 	if out {
 		return f[0] == "r2owa" && f[2] == "o"+strconv.Itoa(port)
 	}
-	return f[0] == "i2rw" && f[2] == "i"+strconv.Itoa(port)
+	return (f[0] == "i2rw" || f[0] == "sicv3") && f[2] == "i"+strconv.Itoa(port)
 }
 
 func ioAddrs(src []string, out bool, port int) []int {
@@ -380,6 +385,30 @@ func genNet(r *common.Rng) netCase {
 	for b := range dbl {
 		dbl[b] = r.Chance(1, 3)
 	}
+	// sicv3 on one input of a processor that has another, i2rw-read, input: the instruction acknowledges
+	// its input without taking a value (it counts the wait), so its bond is not a transfer and is left
+	// out of the comparisons; it is there to disturb the processor's other handshakes
+	nc.sicBond = map[int]bool{}
+	sicEnd := map[end]bool{}
+	for b, bd := range nc.bonds {
+		if bd.prod.p < 0 || len(bd.cons) != 1 || bd.cons[0].p < 0 || !r.Chance(1, 3) {
+			continue
+		}
+		c := bd.cons[0]
+		other := false
+		for b2, bd2 := range nc.bonds {
+			for _, c2 := range bd2.cons {
+				if b2 != b && c2.p == c.p && !nc.sicBond[b2] {
+					other = true
+				}
+			}
+		}
+		if other {
+			nc.sicBond[b] = true
+			sicEnd[c] = true
+			nc.procs[c.p].sic = true
+		}
+	}
 	rounds := 1 + r.Intn(2)
 	for i := range nc.procs {
 		var l []string
@@ -398,7 +427,11 @@ func genNet(r *common.Rng) netCase {
 				}
 				for _, c := range bd.cons {
 					if c.p == i {
-						lines = append(lines, fmt.Sprintf("i2rw r%d i%d", r.Intn(2), c.port))
+						if sicEnd[c] {
+							lines = append(lines, fmt.Sprintf("sicv3 r%d i%d", r.Intn(2), c.port))
+						} else {
+							lines = append(lines, fmt.Sprintf("i2rw r%d i%d", r.Intn(2), c.port))
+						}
 					}
 				}
 				if len(lines) == 0 {
@@ -504,6 +537,9 @@ func runCase(nc netCase, ticks int) {
 			bm.Add_bond([]string{endName(c, false), endName(bd.prod, true)})
 		}
 		out.Line("B %d %s %d %s", b, pn(bd.prod), bd.prod.port, strings.Join(cs, ","))
+		if nc.sicBond[b] {
+			out.Line("SIC %d", b)
+		}
 		if bd.prod.p >= 0 {
 			ioP[b] = ioAddrs(nc.procs[bd.prod.p].src, true, bd.prod.port)
 			out.Line("IO %d %d %s", b, bd.prod.p, ints(ioP[b]))
@@ -720,6 +756,11 @@ func main() {
 			case strings.HasPrefix(l, "D "):
 				nc.delays = strings.TrimSpace(strings.TrimPrefix(l, "D "))
 			case l == "D":
+			case strings.HasPrefix(l, "SIC "):
+				if nc.sicBond == nil {
+					nc.sicBond = map[int]bool{}
+				}
+				nc.sicBond[atoi(strings.TrimSpace(strings.TrimPrefix(l, "SIC ")))] = true
 			case strings.HasPrefix(l, "ENV "):
 				nc.envSeed, _ = strconv.ParseUint(strings.TrimSpace(strings.TrimPrefix(l, "ENV ")), 10, 64)
 			case strings.HasPrefix(l, "TICKS "):
@@ -760,6 +801,7 @@ func main() {
 					if len(q) >= 4 {
 						nc.procs[idx].n = atoi(q[2])
 						nc.procs[idx].m = atoi(q[3])
+						nc.procs[idx].sic = strings.Contains(f[3], "sicv3")
 					}
 				}
 			}
